@@ -9,6 +9,9 @@ not configure into an ill-formed manifest.  Violations come from the Python orac
 differences are correspondence disagreements.  The checker and the oracle are additionally compared on random
 (mostly ill-formed) graphs and on mutated real manifests; the emission state machine (MesonModel/Ninja/Emit.lean)
 is compared with the real NinjaBuild/NinjaBuildElement/NinjaRule classes on random operation sequences.
+Which targets are built by default / needed by the install step is judged from an independent witness (c04_ending.py): the
+documented rule applied to the declared keywords of the grid projects and the non-optional entries of install.dat (checker
+clause 8); the Lean model of the aggregate targets (MesonModel/Ninja/Ending.lean) is tied to the real emitters there.
 """
 from __future__ import annotations
 
@@ -22,7 +25,7 @@ import shutil
 import typing as T
 from concurrent.futures import ThreadPoolExecutor
 
-from . import common, projgen
+from . import common, projgen, c04_ending
 from .common import Ctx, enc, dec, enc_list, dec_list
 
 ID = 'C04'
@@ -51,6 +54,11 @@ PINS = [
     'mesonbuild.interpreter.interpreter:Interpreter._do_subproject_meson',
     'mesonbuild.interpreter.interpreter:Interpreter.add_target',
     'mesonbuild.interpreter.interpreter:Interpreter.validate_forbidden_targets',
+    # what is built by default / needed by the install step (MesonModel/Ninja/Ending.lean)
+    'mesonbuild.build:BuildTarget.__init__',
+    'mesonbuild.interpreter.interpreter:Interpreter.func_custom_target',
+    'mesonbuild.backend.ninjabackend:NinjaBackend.generate_install',
+    'mesonbuild.backend.backends:Backend.generate_target_install',
 ]
 TRUSTED = [
     'ninja manifest grammar / scoping / CanonicalizePath as written down in MesonModel/Ninja/Manifest.lean from ninja 1.11 '
@@ -58,6 +66,8 @@ TRUSTED = [
     'existence of inputs is os.path.exists relative to the build directory right after `meson setup`',
     'the universal statement over projects is sampled (generator + repository test corpus); the checker and the emission '
     'discipline are proved',
+    'meson-private/install.dat (unpickled with the classes of the checkout under test) is what `meson install` copies; '
+    '`built by default` = the documented rule applied to the declared keywords (harness/c04_ending.doc_built_by_default)',
 ]
 
 # ---------------------------------------------------------------------------------------------------------------
@@ -371,7 +381,8 @@ def edge_all_ins(e: dict) -> T.List[str]:
 
 
 def oracle_check(rules: T.Sequence[str], edges: T.Sequence[dict], exists: T.Callable[[str], bool],
-                 reqs: T.Sequence[T.Tuple[str, str]], pools: T.Sequence[str] = (), defaults: T.Sequence[str] = ()) -> dict:
+                 reqs: T.Sequence[T.Tuple[str, str]], pools: T.Sequence[str] = (), defaults: T.Sequence[str] = (),
+                 inst: T.Sequence[str] = (), iroot: str = 'install') -> dict:
     """the property's own predicate on a graph (sets/dicts/DFS; nothing shared with the Lean checker)"""
     res: T.Dict[str, T.Any] = {}
     rs = set(rules)
@@ -434,10 +445,29 @@ def oracle_check(rules: T.Sequence[str], edges: T.Sequence[dict], exists: T.Call
     res['pools'] = not badpools and all(c == 1 for c in declared.values()) and 'console' not in declared
     baddef = [d for d in defaults if d not in producers]
     res['defaults'] = not baddef
-    res['wf'] = all(res[k] for k in ('rules', 'unique', 'acyclic', 'closed', 'reach', 'pools', 'defaults'))
+    # what the install step copies unconditionally: brought up to date by the install target, or (nothing produces it) there
+    inst_bad = []
+    if inst:
+        below: T.Set[str] = {iroot}
+        todo = [iroot]
+        while todo:
+            x = todo.pop()
+            for k in producers.get(x, []):
+                e = edges[k]
+                for y in edge_all_ins(e) + e['vals'] + edge_all_outs(e):
+                    if y not in below:
+                        below.add(y)
+                        todo.append(y)
+        for f in inst:
+            if (f not in below) if f in producers else (not exists(f)):
+                inst_bad.append(f)
+    res['install'] = not inst_bad
+    res['wf'] = all(res[k] for k in ('rules', 'unique', 'acyclic', 'closed', 'reach', 'pools', 'defaults', 'install'))
     res['unreached_pairs'] = pairs
     res['detail_decl'] = {'undeclared_pools': badpools[:3], 'pools_declared': dict(declared), 'defaults_not_produced': baddef[:3]}
     res['detail'] = {'badrules': bad[:3], 'dup': dups[:3], 'missing': missing[:5], 'unreached': unreached[:5]}
+    if inst_bad:
+        res['detail']['installed_but_not_built_by_install'] = sorted(inst_bad)[:5]
     return res
 
 
@@ -487,7 +517,7 @@ def only_via_prereq(edges: T.Sequence[dict], reqs: T.Sequence[T.Tuple[str, str]]
     return out
 
 
-CLAUSES = ('wf', 'rules', 'unique', 'acyclic', 'closed', 'reach', 'pools', 'defaults')
+CLAUSES = ('wf', 'rules', 'unique', 'acyclic', 'closed', 'reach', 'pools', 'defaults', 'install')
 
 
 def parse_verdict(ans: str) -> dict:
@@ -500,7 +530,8 @@ def parse_verdict(ans: str) -> dict:
         d[k] = v
     out = {k: d.get(k) == '1' for k in CLAUSES}
     out['detail'] = {'dup': dec(d.get('dup', '')), 'missing': dec_list(d.get('missing', ''))[:5],
-                     'unreached': dec_list(d.get('unreached', ''))[:5], 'stuck': d.get('stuck')}
+                     'unreached': dec_list(d.get('unreached', ''))[:5], 'stuck': d.get('stuck'),
+                     'instmissing': dec_list(d.get('instmissing', ''))[:5]}
     return out
 
 
@@ -626,7 +657,8 @@ def run_job(job: dict) -> dict:
         env = {k: v for k, v in (env or os.environ).items()
                if k not in ('MESON_RSP_THRESHOLD', 'NINJA', 'CC', 'CFLAGS', 'LDFLAGS', 'DESTDIR')}
         env.update(job['env'])
-    rec['spec'] = None if spec is None else {k: spec[k] for k in ('targets', 'tests', 'collision', 'failing_subproject', 'shared')
+    rec['spec'] = None if spec is None else {k: spec[k] for k in ('targets', 'tests', 'collision', 'failing_subproject', 'shared',
+                                                                  'grid', 'gtests')
                                              if k in spec}
     r = projgen.configure(src, bld, job['args'], env=env, timeout=job.get('timeout', 300))
     rec['ok'] = r['ok']
@@ -698,8 +730,22 @@ def run_job(job: dict) -> dict:
                 for f in files_of(st):
                     reqs.append(('all', f))
                     nspec += 1
+    # the grid projects: requirements from the DOCUMENTED rule (what the declarations say), not from the attribute the
+    # backend and the introspection both read; and the abstract target table for the Lean model of the aggregates
+    rec['grid_problems'] = []
+    if spec is not None and spec.get('grid'):
+        greqs, problems = c04_ending.grid_requirements(spec, tg, rel)
+        reqs += greqs
+        nspec += len(greqs)
+        rec['grid_problems'] = problems
+        rec['grid_table'] = c04_ending.table_from_grid(spec, tg, rel)
     rec['reqs'] = sorted(set(reqs))
     rec['nspec'] = nspec
+    # what the install step is going to copy (install.dat, the file `meson install` reads)
+    idat = c04_ending.read_install_dat(bld)
+    rec['inst'] = sorted({py_canon(f) for f in idat['mandatory']})
+    rec['inst_optional'] = sorted({py_canon(f) for f in idat['optional']})
+    rec['inst_err'] = idat['err']
     # oracle parse + stat
     try:
         g = py_parse(art['ninja'])
@@ -719,6 +765,10 @@ def run_job(job: dict) -> dict:
                     seen.add(p)
                     if os.path.lexists(os.path.join(bld, p)):
                         existing.append(p)
+        for p in rec['inst']:
+            if p not in seen and os.path.lexists(os.path.join(bld, p)):
+                seen.add(p)
+                existing.append(p)
         rec['pygraph'] = {'rules': g['rules'], 'defaults': g['defaults'], 'pools': g['pools'],
                           'edges': [{k: e[k] for k in ('rule', 'outs', 'iouts', 'ins', 'impl', 'oo', 'vals', 'binds', 'pool')}
                                     for e in g['edges']]}
@@ -864,6 +914,8 @@ def make_jobs(ctx: Ctx, scratch: str) -> T.List[dict]:
                      'call': "optsp = subproject('optsp', required: false)", 'without': '', 'fail_at': 5,
                      'root_without': ffiles['meson.build'].replace("optsp = subproject('optsp', required: false)\n", '')}}})
     matrix = projgen.option_matrix()
+    # target kind x build_by_default x install (x build_always, install_dir shapes) with tests reaching helpers every way
+    jobs += c04_ending.grid_jobs(ctx, matrix)
     per = ctx.scale(3, 40)
     for label, args in matrix:
         for _ in range(per):
@@ -896,6 +948,9 @@ def replay_case(rec: dict) -> dict:
     case = {'label': job.get('label'), 'args': job.get('args'), 'kind': job['kind'], 'env': job.get('env')}
     if (rec.get('spec') or {}).get('failing_subproject'):
         case['failing_subproject'] = rec['spec']['failing_subproject']
+    if (rec.get('spec') or {}).get('grid'):
+        case['grid'] = rec['spec']['grid']
+        case['gtests'] = rec['spec'].get('gtests', [])
     if job['kind'] == 'corpus':
         case['name'] = job['name']
     else:
@@ -919,7 +974,13 @@ def judge_project(ctx: Ctx, rec: dict, lean_check: T.Optional[str], lean_parse: 
         ctx.tag('oracle:invalid-manifest')
     else:
         g = rec['pygraph']
-        ov = oracle_check(g['rules'], g['edges'], lambda p: p in fs, rec['reqs'], g.get('pools', ()), g.get('defaults', ()))
+        ov = oracle_check(g['rules'], g['edges'], lambda p: p in fs, rec['reqs'], g.get('pools', ()), g.get('defaults', ()),
+                          rec.get('inst', ()))
+        if rec.get('inst_err'):
+            ctx.tag('install.dat:' + str(rec['inst_err']))
+        ctx.tag('install-mandatory-files', len(rec.get('inst', ())))
+        for gp in rec.get('grid_problems', []):
+            ctx.violation(f'grid-target-missing:{label}', gp, case)
         if not ov['wf']:
             failed = [k for k in CLAUSES[1:] if not ov[k]]
             key = known_key or f'illformed:{"+".join(failed)}:{label}'
@@ -993,6 +1054,66 @@ def judge_project(ctx: Ctx, rec: dict, lean_check: T.Optional[str], lean_parse: 
             ctx.disagreement({'kind': 'project-parse', 'lean': lean_parse[:300], 'case': case})
 
 
+def judge_grids(ctx: Ctx, okrecs: T.List[dict], use_model: bool) -> None:
+    """the Lean model of the aggregate targets against the real build.ninja / install.dat of the grid projects: the
+    keywords come from the declarations, directory and file names from introspection; what the model lists in `all`,
+    `meson-test-prereq`, `meson-benchmark-prereq` and as (non-)optional install entries must be what the real files hold"""
+    grids = [r for r in okrecs if (r.get('spec') or {}).get('grid')]
+    for r in grids:
+        ctx.tag('grid:configured')
+        decls = r['spec']['grid']
+        for d in decls:
+            ctx.tag(f"grid-cell:{d['fn']}:bbd={c04_ending.TRI[d['bbd']]}:install={c04_ending.TRI[d['install']]}"
+                    + (f":build_always={c04_ending.TRI[d['build_always']]}" if d['build_always'] is not None else ''))
+    if not use_model:
+        return
+    todo = [r for r in grids if r.get('grid_table') and r.get('pygraph')]
+    for r in grids:
+        if r not in todo:
+            ctx.disagreement({'kind': 'grid-table', 'detail': 'introspection does not have the shape the table is read from',
+                              'case': replay_case(r)})
+    lines = []
+    for r in list(todo):
+        try:
+            lines.append(c04_ending.grid_model_lines(r['spec'], r['grid_table']))
+        except (KeyError, IndexError, TypeError) as e:
+            # a declared target that introspection does not list (reported by the oracle as grid-target-missing)
+            todo.remove(r)
+            ctx.disagreement({'kind': 'grid-table', 'detail': f'{type(e).__name__}: {e}'[:120], 'case': replay_case(r)})
+    if not todo:
+        return
+    ans = ctx.driver('ninja', lines)
+    for r, a in zip(todo, ans):
+        ctx.extra['disagreements_checked'] = ctx.extra.get('disagreements_checked', 0) + 1
+        m = c04_ending.parse_ending(a)
+        if m is None:
+            ctx.disagreement({'kind': 'grid-model-answer', 'model': a[:200], 'case': replay_case(r)})
+            continue
+        by_out = {}
+        for e in r['pygraph']['edges']:
+            for o in edge_all_outs(e):
+                by_out.setdefault(o, e)
+        diffs = {}
+        for key, name in (('all', 'all'), ('test', 'meson-test-prereq'), ('bench', 'meson-benchmark-prereq')):
+            real = sorted(edge_all_ins(by_out[name])) if name in by_out else None
+            mine = sorted(py_canon(p) for p in m[key])
+            if key != 'all' and real is not None:
+                # the interpreter may hand the backend a target twice (a test's program is also among its dependencies);
+                # the exact lists are compared by the in-process stream, here the sets
+                real, mine = sorted(set(real)), sorted(set(mine))
+            if real != mine:
+                diffs[name] = {'only-model': sorted(set(mine) - set(real or []))[:5], 'only-impl': sorted(set(real or []) - set(mine))[:5]}
+        if not r.get('inst_err'):
+            for key, real in (('mand', r.get('inst', [])), ('opt', r.get('inst_optional', []))):
+                mine = sorted({py_canon(p) for p in m[key]})
+                if mine != sorted(real):
+                    diffs['install.dat:' + key] = {'only-model': sorted(set(mine) - set(real))[:5],
+                                                   'only-impl': sorted(set(real) - set(mine))[:5]}
+        if diffs:
+            ctx.disagreement({'kind': 'grid-ending', 'diffs': diffs, 'case': replay_case(r)})
+        ctx.seen_nontrivial(('grid-ending', r['job'].get('label'), len(r['grid_table']['rows'])))
+
+
 def run_projects(ctx: Ctx, oracle_only: bool = False, jobs_fn=make_jobs) -> T.List[dict]:
     scratch = common.scratch_dir('mverif-c04-')
     try:
@@ -1006,12 +1127,13 @@ def run_projects(ctx: Ctx, oracle_only: bool = False, jobs_fn=make_jobs) -> T.Li
     for r in okrecs:
         t = enc(r['ninja'])
         reqs = [x for rt in r['reqs'] for x in rt]
-        lines.append(f'check {t}|{enc_list(r["fs"])}|{enc_list(reqs)}')
+        lines.append(f'check {t}|{enc_list(r["fs"])}|{enc_list(reqs)}|{enc_list(r.get("inst", []))}')
         lines.append(f'parse {t}')
     use_model = ctx.model_available and not oracle_only
     answers = ctx.driver('ninja', lines) if (use_model and lines) else [None] * len(lines)
     for k, r in enumerate(okrecs):
         judge_project(ctx, r, answers[2 * k], answers[2 * k + 1])
+    judge_grids(ctx, okrecs, use_model)
     for r in recs:
         job = r['job']
         label = job.get('label', '')
@@ -1081,7 +1203,7 @@ def run_projects(ctx: Ctx, oracle_only: bool = False, jobs_fn=make_jobs) -> T.Li
                 ctx.tag('objname-clash-rejected')
             else:
                 ctx.tag(f'configure-failed:{group}')
-                if group in ('gen', 'fixed-basic'):
+                if group in ('gen', 'fixed-basic', 'grid'):
                     # the generator promises valid projects: a failure is a harness defect worth seeing, not a verdict
                     ctx.notes.append(f'generated project failed to configure ({label} seed={job.get("seed")}): {r["error"][:160]}')
     return recs
@@ -1120,14 +1242,18 @@ def rand_graph(rng):
     pools = [rng.choice(['link_pool', 'p2', 'link_pool', 'console' if rng.random() < 0.1 else 'p3'])
              for _ in range(rng.randint(0, 3))] if rng.random() < 0.7 else ['link_pool', 'p2']
     defaults = [rng.choice(allnodes) for _ in range(rng.randint(0, 2))] if rng.random() < 0.6 else []
-    return rules, edges, fs, reqs, pools, defaults
+    # the install clause: a root (mostly an output) and files the install step copies (outputs and plain files)
+    outs_all = [o for e in edges for o in e['outs']] or allnodes
+    iroot = rng.choice(outs_all if rng.random() < 0.8 else allnodes)
+    inst = [rng.choice(outs_all if rng.random() < 0.7 else allnodes) for _ in range(rng.randint(0, 3))] if rng.random() < 0.7 else []
+    return rules, edges, fs, reqs, pools, defaults, iroot, inst
 
 
-def graph_line(rules, edges, fs, reqs, pools, defaults) -> str:
+def graph_line(rules, edges, fs, reqs, pools, defaults, iroot='install', inst=()) -> str:
     es = '/'.join(';'.join([enc(e['rule']), enc_list(edge_all_outs(e)), enc_list(edge_all_ins(e)), enc_list(e['vals']),
                             enc(e.get('pool', ''))]) for e in edges)
     return (f'checkg {enc_list(rules)}|{es}|{enc_list(fs)}|{enc_list([x for rt in reqs for x in rt])}|'
-            f'{enc_list(pools)}|{enc_list(defaults)}')
+            f'{enc_list(pools)}|{enc_list(defaults)}|{enc(iroot)}|{enc_list(inst)}')
 
 
 def run_graphs(ctx: Ctx) -> None:
@@ -1136,15 +1262,15 @@ def run_graphs(ctx: Ctx) -> None:
     cases = [rand_graph(rng) for _ in range(n)]
     ans = ctx.driver('ninja', [graph_line(*c) for c in cases]) if ctx.model_available else []
     for c, a in zip(cases, ans):
-        rules, edges, fs, reqs, pools, defaults = c
+        rules, edges, fs, reqs, pools, defaults, iroot, inst = c
         fss = set(fs)
-        ov = oracle_check(rules, edges, lambda p: p in fss, reqs, pools, defaults)
+        ov = oracle_check(rules, edges, lambda p: p in fss, reqs, pools, defaults, inst, iroot)
         lv = parse_verdict(a)
         ctx.count()
         ctx.extra['disagreements_checked'] = ctx.extra.get('disagreements_checked', 0) + 1
         ctx.tag('graph:' + ''.join(str(int(ov[k])) for k in CLAUSES[1:]))
         if 'error' in lv or any(lv[k] != ov[k] for k in CLAUSES):
-            ctx.disagreement({'kind': 'graph-verdict', 'input': [rules, edges, fs, reqs, pools, defaults], 'lean': a[:300],
+            ctx.disagreement({'kind': 'graph-verdict', 'input': [rules, edges, fs, reqs, pools, defaults, iroot, inst], 'lean': a[:300],
                               'oracle': {k: ov[k] for k in CLAUSES}})
 
 
@@ -1241,7 +1367,7 @@ def run_mutated_manifests(ctx: Ctx, recs: T.List[dict]) -> None:
     lines = []
     for kind, text, r in cases:
         reqs = [x for rt in r['reqs'] for x in rt]
-        lines.append(f'check {enc(text)}|{enc_list(r["fs"])}|{enc_list(reqs)}')
+        lines.append(f'check {enc(text)}|{enc_list(r["fs"])}|{enc_list(reqs)}|{enc_list(r.get("inst", []))}')
     ans = ctx.driver('ninja', lines)
     for (kind, text, r), a in zip(cases, ans):
         ctx.count()
@@ -1258,7 +1384,8 @@ def run_mutated_manifests(ctx: Ctx, recs: T.List[dict]) -> None:
                 # (the Lean reader parses the whole text before loading, so a later syntax error may win: both reject)
                 ctx.disagreement({'kind': 'mutant-load-error', 'mutation': kind, 'oracle': str(e), 'lean': a[:200], 'input': text})
             continue
-        ov = oracle_check(g['rules'], g['edges'], lambda p: p in fss, r['reqs'], g.get('pools', ()), g.get('defaults', ()))
+        ov = oracle_check(g['rules'], g['edges'], lambda p: p in fss, r['reqs'], g.get('pools', ()), g.get('defaults', ()),
+                          r.get('inst', ()))
         ctx.tag(f'mutant:{kind}:' + ''.join(str(int(ov[k])) for k in CLAUSES[1:]))
         if 'error' in lv or any(lv[k] != ov[k] for k in CLAUSES):
             ctx.disagreement({'kind': 'mutant-verdict', 'mutation': kind, 'lean': a[:300],
@@ -1594,6 +1721,8 @@ def run(ctx: Ctx) -> None:
     lap('mutants')
     run_emission(ctx)
     lap('emission')
+    c04_ending.run_ending_stream(ctx)
+    lap('ending')
 
 
 def search(ctx: Ctx, disagreements: T.List[dict]) -> None:
@@ -1643,6 +1772,14 @@ def replay(ctx: Ctx, rep: dict) -> None:
         if ctx.model_available:
             print('model:', ctx.driver('ninja', [ops_line(ops)])[0][:300])
         return
+    if 'ending' in case:
+        c = case['ending']
+        real = c04_ending.real_ending(c['rows'], c['tests'], c['benches'], c['layout'])
+        print('impl:', real)
+        print('documented built-by-default rows:', [i for i, r in enumerate(c['rows']) if r.get('attr_bbd')])
+        if ctx.model_available:
+            print('model:', ctx.driver('ninja', [c04_ending.ending_line(c['rows'], c['tests'], c['benches'])])[0][:400])
+        return
     scratch = common.scratch_dir('mverif-c04-')
     try:
         if case.get('kind') == 'corpus':
@@ -1652,6 +1789,8 @@ def replay(ctx: Ctx, rep: dict) -> None:
                    'env': case.get('env')}
             if case.get('failing_subproject'):
                 job['spec'] = {'targets': [], 'tests': [], 'failing_subproject': case['failing_subproject']}
+            if case.get('grid'):
+                job['spec'] = {'targets': [], 'tests': [], 'grid': case['grid'], 'gtests': case.get('gtests', [])}
         job['scratch'] = os.path.join(scratch, 'r')
         rec = run_job(job)
         print('configured:', rec['ok'], rec.get('error'))
@@ -1663,10 +1802,12 @@ def replay(ctx: Ctx, rep: dict) -> None:
         if rec['ok']:
             t = enc(rec['ninja'])
             reqs = [x for rt in rec['reqs'] for x in rt]
-            a = ctx.driver('ninja', [f'check {t}|{enc_list(rec["fs"])}|{enc_list(reqs)}'])[0] if ctx.model_available else None
+            a = ctx.driver('ninja', [f'check {t}|{enc_list(rec["fs"])}|{enc_list(reqs)}|{enc_list(rec.get("inst", []))}'])[0] \
+                if ctx.model_available else None
             if rec['pyerr'] is None:
                 fs = set(rec['fs'])
-                ov = oracle_check(rec['pygraph']['rules'], rec['pygraph']['edges'], lambda p: p in fs, rec['reqs'], rec['pygraph'].get('pools', ()), rec['pygraph'].get('defaults', ()))
+                ov = oracle_check(rec['pygraph']['rules'], rec['pygraph']['edges'], lambda p: p in fs, rec['reqs'],
+                                  rec['pygraph'].get('pools', ()), rec['pygraph'].get('defaults', ()), rec.get('inst', ()))
                 print('oracle:', {k: ov[k] for k in CLAUSES}, ov['detail'])
             else:
                 print('oracle: manifest unreadable:', rec['pyerr'])
